@@ -280,10 +280,51 @@ def run(rep, b, tier, seed, only_cases=None):
             ex = c['expiry'] if isinstance(c['expiry'], str) else ['numeric', c['expiry'][1]]
             lines.append('cookielab ' + sexp.dumps([ex, int(r['now']), rc, ops]))
             index.append((i, k))
+    # whole histories: the jar is carried by the model (run_history); only tampered cookies are fed in
+    hlines, hindex = [], []
+    for i, (c, o) in enumerate(zip(cases, obs)):
+        if isinstance(o, dict) and '_harness_exception' in o:
+            continue
+        hist = []
+        prev_set = None
+        for k, (step, r) in enumerate(zip(c['steps'], o)):
+            if r['sent'] != prev_set:
+                hist.append(['tamper', classify(r['sent'], None)[0]])
+            ops = []
+            for op in step['ops']:
+                if op[0] == 'set':
+                    ops.append(['set', op[1].encode('utf8'), json.dumps(op[2], sort_keys=True).encode('utf8')])
+                elif op[0] == 'del':
+                    ops.append(['del', op[1].encode('utf8')])
+                else:
+                    ops.append('clear')
+            hist.append(['req', int(r['now']), ops])
+            if r['set_cookie'] is not None:
+                prev_set = r['set_cookie']
+            else:
+                prev_set = r['sent']
+        ex = c['expiry'] if isinstance(c['expiry'], str) else ['numeric', c['expiry'][1]]
+        hlines.append('cookiehist ' + sexp.dumps([ex, hist]))
+        hindex.append(i)
     model_out = None
     if b.driver_ok:
         try:
             model_out = core.run_model(lines)
+            hist_out = core.run_model(hlines)
+            nh = 0
+            for i, line in zip(hindex, hist_out):
+                try:
+                    givens = [dict((kv[0].decode('utf8'), json.loads(kv[1].decode('utf8'))) for kv in d) for d in sexp.loads(line)]
+                except Exception as e:  # noqa
+                    givens = 'unreadable %s' % e
+                real = [r['given'] for r in obs[i]]
+                if givens != real:
+                    nh += 1
+                    if nh <= 3:
+                        rep.broken('correspondence cookiehist: the model run over the whole history (its own jar) gives the endpoint %r; '
+                                   'the implementation gave %r' % (givens, real), {'case': cases[i]})
+                else:
+                    rep.count('histories_refined')
         except Exception as e:  # noqa
             rep.broken('model cookielab is not executable: %s' % e)
     else:
